@@ -40,7 +40,8 @@ def main(only=None):
         print(f"{st:>22}  {name}")
         for a in alarms:
             print("        ", a)
-    json.dump([{"patch": n, "status": s, "alarms": a} for n, s, a in rows], open(os.path.join(harness.VERIF, "selfcheck", "benign.json"), "w"), indent=1)
+    if not only:      # a filtered run does not overwrite the summary of the full run
+        json.dump([{"patch": n, "status": s, "alarms": a} for n, s, a in rows], open(os.path.join(harness.VERIF, "selfcheck", "benign.json"), "w"), indent=1)
     return 1 if bad else 0
 
 if __name__ == "__main__":
